@@ -52,6 +52,7 @@ pub fn run(tier: &str) -> i32 {
             prop: "C13",
             liveness: p < 100,
             upgrade_transparency: false,
+            syncing_toggles: true,
         };
         let e = explore(&m, &Limits::new(3, if quick { 300 } else { 6000 }));
         rep.absorb(
@@ -62,7 +63,7 @@ pub fn run(tier: &str) -> i32 {
                    "pool": if wide { "G-A1-A2 and G-B1-B2-B3, B2 paginated, one block per reply" } else { "G-P1-P2-P3 + fork F on P1, P2 paginated, two blocks per reply" }}),
         );
     }
-    rep.rule = "all schedules of {start a heartbeat, deliver normal/reject/empty reply to a parked heartbeat, upgrade} with at most d deviations from the sequential schedule (a heartbeat while a request is outstanding, a reject, an empty reply, an upgrade each cost one), over a source holding a 4-block pool with one block split into 1+p pages; states merged on the complete logical state + parked requests + source cursor + deviations used; from every state a fault-free suffix must sync the pool".into();
+    rep.rule = "all schedules of {start a heartbeat, deliver normal/reject/empty reply to a parked heartbeat, upgrade} with at most d deviations from the sequential schedule (a heartbeat while a request is outstanding, a reject, an empty reply, an upgrade, switching syncing off (and on again) each cost one), over a source holding a 4-block pool with one block split into 1+p pages; states merged on the complete logical state + parked requests + source cursor + deviations used; from every state a fault-free suffix must sync the pool".into();
     rep.bounds = json!({"tier": tier});
     rep.assume("the source honours its protocol (no complete reply to a follow-up request, no partial reply announcing 0 follow-ups); set_config is not in this alphabet");
     rep.assume("an upgrade leaks outstanding heartbeats: the IC never resumes call contexts of the old instance");
@@ -74,5 +75,7 @@ pub fn run(tier: &str) -> i32 {
     rep.floor("follow_up_requests_in_sequence", 50);
     rep.floor("initial_requests_after_reject_or_upgrade", 20);
     rep.floor("liveness_suffixes_checked", 200);
+    rep.floor("syncing_switched_off", 20);
+    rep.floor("syncing_switched_off_between_pages", 2);
     rep.finish()
 }
